@@ -553,6 +553,11 @@ def minimize_lbfgsb(
             logger,
         )
         if steplength is None:
+            if sf.nfev >= maxfun:
+                # The line search has been interrupted by the evaluation budget
+                # before finding a better point: keep the current iterate and the
+                # correction pairs, the budget stop criterion applies.
+                break
             if len(X) == 1:
                 # Hessian already rebooted: abort.
                 istate.task_str = "ABNORMAL_TERMINATION_IN_LNSRCH"
